@@ -126,4 +126,12 @@ CHECKS = {
         "level_text": 'Decides the state discipline that makes follow and batch runs execute the same computation; equality of the produced tables is not compared.',
         "level_note": 'Trusted: MIR of the nightly front end; listed repeatable uses in rules_c11.py.',
     },
+    "C17": {
+        "modules": ["rules_c17"],
+        "explanation": "Path counting and arm-table rules on MIR: over all acyclic paths of the row loop of OutputPrinter::print the number of Printer::println calls is exactly 1 (0+2 on the CSV first-line edge), after the loop at most one separator guarded by multiple_rows && !single_result; first_line typestate (constructor true, cleared on every row path, single reader); in the three format closures the value index is the unmodified enumerate index; Value::json_value arm table (variant -> JSON kind, no coercing cast, no wildcard, recursion on array elements); records serialised by serde_json::to_string on a Map and the preserve_order feature read from Cargo.toml; FileExecutor prints each line's result at most once.",
+        "trusted": ["rustc nightly MIR + trait resolution", "dependencies behave as documented"],
+        "technique": 'static path counting over acyclic MIR paths, arm-table extraction, provenance of indexes, build-configuration check',
+        "level_text": 'Decides record multiplicity, header typestate, name/value pairing and the JSON kind mapping on every path. Number/escape fidelity inside serde_json and Display formats are not decided.',
+        "level_note": 'Trusted: serde_json serialisation; MIR of the nightly front end.',
+    },
 }
